@@ -166,9 +166,26 @@ func norm(in ref.OCRAIn) ref.OCRAIn {
 
 func runRestStep(sv *restServer, s restStep) (labels []string, nt bool, err error) {
 	labels = []string{"ep=" + s.Ep}
-	fail := func(f string, a ...any) ([]string, bool, error) { return labels, true, fmt.Errorf(f, a...) }
+	// A digits / algorithm spelling outside the canonical ones ("6", "8", "9", "10"; "SHA1", "SHA256", "SHA512") makes it
+	// doubtful that the request is "well-formed": a service may resolve it through the library's helpers (what the tree does:
+	// the fallback to 6 / SHA-1) or refuse it with a failure status. Both are accepted; a wrong SUCCESS answer is not.
+	noncanon := (s.HasDig && !canonicalSpelling(s.Dig, "6", "8", "9", "10")) || (s.HasAlg && !canonicalSpelling(s.Alg, "SHA1", "SHA256", "SHA512")) ||
+		(s.HashStr != "" && !canonicalSpelling(s.HashStr, "SHA1", "SHA256", "SHA512"))
+	refused := false
+	fail := func(f string, a ...any) ([]string, bool, error) {
+		if noncanon && refused {
+			return append(labels, "noncanonical-spelling-refused"), false, nil
+		}
+		return labels, true, fmt.Errorf(f, a...)
+	}
 	nondefault := s.HasDig || s.HasAlg || s.HasPer || s.HasSkew || !s.Sp.Canonical()
-	post := func(path string, body []byte) httpResult { return sv.doV(path, body, s.Fresh, 15*time.Second, s.HV) }
+	post := func(path string, body []byte) httpResult {
+		r := sv.doV(path, body, s.Fresh, 15*time.Second, s.HV)
+		if r.Err == nil && r.Status >= 400 {
+			refused = true
+		}
+		return r
+	}
 	if s.HV != 0 {
 		labels = append(labels, "http="+httpVariants[s.HV%len(httpVariants)])
 	}
@@ -478,6 +495,7 @@ func runRestStep(sv *restServer, s restStep) (labels []string, nt bool, err erro
 		}
 		r1 := sv.do("GET", path, nil, s.Fresh, 15*time.Second)
 		r2 := sv.do("GET", path, nil, s.Fresh, 15*time.Second)
+		refused = r1.Err == nil && r1.Status >= 400 && r2.Err == nil && r2.Status >= 400
 		for _, r := range []httpResult{r1, r2} {
 			if r.Status != 200 || r.JSON == nil {
 				return fail("GET %s -> %s", path, r.brief())
@@ -497,6 +515,15 @@ func runRestStep(sv *restServer, s restStep) (labels []string, nt bool, err erro
 		return labels, s.HasAlg, nil
 	}
 	return fail("HARNESS: unknown endpoint %s", s.Ep)
+}
+
+func canonicalSpelling(s string, ok ...string) bool {
+	for _, o := range ok {
+		if s == o {
+			return true
+		}
+	}
+	return false
 }
 
 func checkC18(c c18Case) verdict {
@@ -553,7 +580,7 @@ func tailStr(s string, n int) string {
 }
 
 var c18Main = newPart("C18", "endpoints",
-	"rapid: sequences of 1..12 requests over all ten endpoints dealt to 1..8 concurrent clients on reused or fresh connections, a third of the POSTs in one of nine HTTP-level variants of the same request (chunked body, Content-Type with a charset or absent, an extra query string, Expect: 100-continue, lower-case header names on a raw socket, Accept-Encoding: gzip, a pipelined pair of identical requests, HTTP/1.0), against the REAL server binary built from the working tree on loopback; each JSON field independently present/absent, digits/algorithm spellings incl. unknown ones (fall back to 6 / SHA1), secrets in any base32 spelling incl. surrounding blanks, raw (registered) or structured suites, OCRA inputs admissible or not, validation codes at window distances -(s+2)..+(s+2) and edited, generate->validate chains, timestamp omitted (server clock); oracle: the independent RFC references for exactly the request's parameters under the documented mapping, the library called directly in the harness process (verdicts, URL builder, registry), and the suite-name reader; non-trivial = a request with a non-default field, a chain, a distance != 0 or an edited code",
+	"rapid: sequences of 1..12 requests over all ten endpoints dealt to 1..8 concurrent clients on reused or fresh connections, a third of the POSTs in one of nine HTTP-level variants of the same request (chunked body, Content-Type with a charset or absent, an extra query string, Expect: 100-continue, lower-case header names on a raw socket, Accept-Encoding: gzip, a pipelined pair of identical requests, HTTP/1.0), against the REAL server binary built from the working tree on loopback; each JSON field independently present/absent, digits/algorithm spellings incl. unknown ones (resolved by the library's helpers — today the fallback to 6 / SHA1 — or refused with a failure status), secrets in any base32 spelling incl. surrounding blanks, raw (registered) or structured suites, OCRA inputs admissible or not, validation codes at window distances -(s+2)..+(s+2) and edited, generate->validate chains, timestamp omitted (server clock); oracle: the independent RFC references for exactly the request's parameters under the documented mapping, the library called directly in the harness process (verdicts, URL builder, registry), and the suite-name reader; non-trivial = a request with a non-default field, a chain, a distance != 0 or an edited code",
 	checkC18)
 
 func drawRestStep(t *rapid.T) restStep {
